@@ -679,6 +679,13 @@ def eval (cfg : Cfg) (sb : Bool) : Nat → Expr → M Out
     guardCheck cfg sb e.kind
     evalNode cfg sb n (eval cfg sb n) e
 
+/-- Is this callee a native that carries the side-effect-free flag?  (Script functions never do.) -/
+def safeCallee (cfg : Cfg) : Callee → Bool
+  | .native n => match cfg.native n with
+    | some f => f.safe
+    | none => false
+  | .script _ => false
+
 /-- What one evaluation looks like from outside. -/
 inductive Outcome | ok | sandbox | hidden | err
   deriving DecidableEq, Repr
